@@ -76,7 +76,8 @@ theorem wcasRow_coh (k : String) (exp cas : Nat) (v : Option String) (o : WOpts)
 /-- What `WriteCas` stores besides the body: the flag follows the value, and a tombstone's xattrs are dropped. -/
 theorem wcasRow_shape (k : String) (exp cas : Nat) (v : Option String) (o : WOpts) (nc now : Nat) (old : Option Row)
     (r' : Row) (ev : Option Event) (out : Out) (h : wcasRow k exp cas v o nc now old = .inr (some r', ev, out)) :
-    r'.tomb = v.isNone ∧ ∀ r, old = some r → r.tomb = true → r'.xattrs = [] := by
+    r'.tomb = v.isNone ∧ (∀ r, old = some r → r.tomb = true → r'.xattrs = []) ∧
+      (∀ r, old = some r → r.tomb = false → r'.xattrs = r.xattrs) := by
   unfold wcasRow at h
   split at h
   · cases h
@@ -93,19 +94,19 @@ theorem wcasRow_shape (k : String) (exp cas : Nat) (v : Option String) (o : WOpt
       · split at hw
         · split at hw
           · split at hw
-            · cases hw; exact ⟨rfl, fun r hr ht => by cases hr; simp [ht]⟩
+            · cases hw; exact ⟨rfl, fun r hr ht => (by cases hr; simp [ht]), fun r hr ht => (by cases hr; simp [ht])⟩
             · cases hw
           · cases hw
         · cases hw
       · split at hw
         · split at hw
-          · cases hw; exact ⟨rfl, fun r hr _ => by cases hr⟩
+          · cases hw; exact ⟨rfl, fun r hr _ => (by cases hr), fun r hr _ => (by cases hr)⟩
           · split at hw
-            · cases hw; exact ⟨rfl, fun r hr ht => rfl⟩
+            · rename_i htt; cases hw; exact ⟨rfl, fun r hr ht => rfl, fun r hr ht => (by cases hr; simp [ht] at htt)⟩
             · cases hw
         · split at hw
           · split at hw
-            · cases hw; exact ⟨rfl, fun r hr ht => by cases hr; simp [ht]⟩
+            · cases hw; exact ⟨rfl, fun r hr ht => (by cases hr; simp [ht]), fun r hr ht => (by cases hr; simp [ht])⟩
             · cases hw
           · cases hw
 
